@@ -43,9 +43,9 @@ def _export(nl):
   unsigned char *data = malloc (gh); size_t cnt; __CPROVER_assume (data != (void *) 0);
   int order = nondet_int (), endian = nondet_int ();
   __gmpz_export (data, &cnt, order, 1, endian, V_NL, &Z);
-}''' % (nl, mpz_obj('Z')), timeout=1500,
+}''' % (nl, mpz_obj('Z')), timeout=2400,
         selftest=[('__gmpz_export', r'limb = newlimb >> \(\(wbits\)-lbits\);', 'limb = newlimb >> ((wbits)-lbits+1);') if nl else ('__gmpz_export', r'limb = newlimb >> \(\(8\)-lbits\);', 'limb = newlimb >> ((8)-lbits+1);'),
-                  ('__gmpz_export', r'\(order >= 0 \? \(count-1\)\*size : 0\)', '(order > 0 ? (count-1)*size : 0)')] if nl in (0, 3) else [])
+                  ('__gmpz_export', r'\(order >= 0 \? \(count-1\)\*size : 0\)', '(order >= 0 ? (count)*size : 0)')] if nl in (0, 3) else [])
 for _n in range(8):
     UNITS.append(_export(_n))
 
